@@ -48,7 +48,7 @@ def scopes(chk):
     sc.append(('crlf', {'Budget': 3 if quick else 4, 'TextPool': ['a\r\nb', '\r\n', 'x\ry', ' ', '\t'], 'ComPool': ['c'], 'MathKinds': ['$'],
                         'MEnvNames': [], 'VerbNames': ['verbatim'], 'VerbBodies': ['x\r\ny'], 'Leaves': [], 'MaxSib': 3}))
     sc.append(('nearkw', {'Budget': 3 if quick else 4, 'TextPool': ['t', ' '], 'ComPool': [], 'MathKinds': ['$'], 'MEnvNames': ['equation'],
-                          'VerbNames': ['verbatim'], 'VerbBodies': [' { '], 'Leaves': [], 'CmdNames': ['items', 'endx', 'beginx', 'lefty', 'it'],
+                          'VerbNames': ['verbatim'], 'VerbBodies': ['x{ '], 'Leaves': [], 'CmdNames': ['items', 'endx', 'beginx', 'lefty', 'it'],
                           'EnvNames': ['equationx', 'verbatimx', 'itemizes', 'e*'], 'ListNames': ['itemize', 'enumerate'], 'MaxSib': 2}))
     sc.append(('envargs', {'Budget': 4 if quick else 5, 'TextPool': ['a', ' ', '['], 'ComPool': [], 'MathKinds': ['$'], 'MEnvNames': [],
                            'VerbNames': [], 'Leaves': [], 'ListNames': [], 'MaxSib': 2, 'MaxDepth': 3}))
